@@ -87,6 +87,18 @@ def handle : List String → String
           | .fresh r => s!"fresh {ttls r}"
           | .stale r => s!"stale {ttls r}")
     | _, _, _, _, _, _ => "bad-op"
+  | ["reload", keeps, wl, rl, st, rcode, tc, rrs, loadAfter, askAfter] =>
+    -- the reply is stored at T by an instance with lazy_cache_ttl wl, dumped, loaded at T + loadAfter by an
+    -- instance with lazy_cache_ttl rl and asked at T + askAfter
+    match Hex.bool? keeps, wl.toInt?, rl.toInt?, st.toNat?, msg? rcode tc rrs, loadAfter.toNat?, askAfter.toNat? with
+    | some kp, some wl, some rl, some st, some m, some la, some aa =>
+      let T : Nat := 1000000000000000000
+      match reloadRun kp wl rl (UInt32.ofNat st) m T (T + la) (T + aa) with
+      | none => "none"
+      | some .miss => "miss"
+      | some (.fresh r) => "fresh " ++ ttls r
+      | some (.stale r) => "stale " ++ ttls r
+    | _, _, _, _, _, _, _ => "bad-op"
   | _ => "bad-op"
 
 end Driver.C05
